@@ -20,10 +20,15 @@ type inputVal struct {
 	Bytes []int64 `json:"bytes"`
 }
 
-type replayFile struct {
+type replayCase struct {
 	Harness string         `json:"harness"`
 	Inputs  []inputVal     `json:"inputs"`
 	Params  map[string]int `json:"params"`
+	Expect  string         `json:"expect"`
+}
+
+type replayFile struct {
+	Cases []replayCase `json:"cases"`
 }
 
 // Failure is the panic value of a failed Assert during native replay.
@@ -33,7 +38,8 @@ type Failure struct{ Label string }
 type AssumeFailed struct{}
 
 var (
-	rf     replayFile
+	file   replayFile
+	rf     replayCase
 	pos    int
 	loaded bool
 )
@@ -51,13 +57,21 @@ func load() {
 	if err != nil {
 		panic(err)
 	}
-	if err := json.Unmarshal(b, &rf); err != nil {
+	if err := json.Unmarshal(b, &file); err != nil {
 		panic(err)
 	}
 }
 
-// Harness returns the harness name stored in the replay file.
-func Harness() string { load(); return rf.Harness }
+// NumCases returns the number of cases in the replay file.
+func NumCases() int { load(); return len(file.Cases) }
+
+// Begin selects case i and returns its harness name and expectation.
+func Begin(i int) (harness, expect string) {
+	load()
+	rf = file.Cases[i]
+	pos = 0
+	return rf.Harness, rf.Expect
+}
 
 func next(name string) inputVal {
 	load()
